@@ -50,15 +50,17 @@ theorem terminates (env : Env) (wf : WF env) (hfin : AllFinal env) :
     Whenever the loop has consumed its pending event(s) and nothing is pending any more: the recorded
     last-handled state IS the object's essence, nothing initial is outstanding, NO progress record of
     any owned handler remains, and the framework has stopped writing — even a further (re-)delivered
-    event is processed with no PATCH, no change of records or last-handled state, and leaves nothing
-    pending. (No hypothesis on the handlers: a safety property of every quiescent state.) -/
+    event is processed with no change of records or last-handled state and leaves nothing pending; the
+    only request it can cause is the constant part of the patch that changes nothing (`cp env`: 0 unless
+    e.g. an `on.event` handler returns a constant). (No hypothesis on the handlers: a safety property of
+    every quiescent state.) -/
 theorem final_state (env : Env) (hpm : env.prematch = true) (m : Nat) :
     ∀ (s : State E), s.pending = true → s.gone = false → s.marked = false →
       (iter env m s).pending = false →
       (iter env m s).base = some s.ess ∧
       ((iter env m s).noticed = true → (iter env m s).fullyHandled = true) ∧
       (∀ i ∈ env.owned, (iter env m s).P i = none) ∧
-      (loopStep env { iter env m s with pending := true }).writes = (iter env m s).writes ∧
+      (loopStep env { iter env m s with pending := true }).writes = (iter env m s).writes + cp env ∧
       (loopStep env { iter env m s with pending := true }).pending = false ∧
       (loopStep env { iter env m s with pending := true }).base = (iter env m s).base ∧
       (∀ i, (loopStep env { iter env m s with pending := true }).P i = (iter env m s).P i) := by
@@ -120,7 +122,7 @@ theorem final_state_deleted (env : Env) (m : Nat) :
             have hstep : (loopStep env t).blocked = false ∧ (loopStep env t).gone = t.gone ∧
                 (loopStep env t).marked = true := by
               refine ⟨?_, ?_, by rw [loopStep_marked]; exact hmt⟩
-              · rcases loopStep_form env t with h | h | h | ⟨g, h⟩ | h | ⟨_, _, _, h⟩
+              · rcases loopStep_form env t with h | ⟨_, h⟩ | h | ⟨g, h⟩ | h | ⟨_, _, _, h⟩
                 · rw [h]; exact hb
                 · rw [h]; exact hb
                 · -- the finalizer is never added to a marked object
@@ -171,7 +173,7 @@ theorem converges (env : Env) (wf : WF env) (hfin : AllFinal env) (hpm : env.pre
     (s : State E) (hu : Uniform env s) (hp : s.pending = true) (hg : s.gone = false) (hmk : s.marked = false) :
     ∃ m, m ≤ bound env s ∧ (iter env m s).pending = false ∧ (iter env m s).base = some s.ess ∧
       (∀ i ∈ env.owned, (iter env m s).P i = none) ∧
-      (loopStep env { iter env m s with pending := true }).writes = (iter env m s).writes ∧
+      (loopStep env { iter env m s with pending := true }).writes = (iter env m s).writes + cp env ∧
       (loopStep env { iter env m s with pending := true }).pending = false := by
   obtain ⟨m, hm, hq⟩ := terminates env wf hfin s hu
   obtain ⟨h1, _, h2, h3, h4, _⟩ := final_state env hpm m s hp hg hmk hq
@@ -263,6 +265,44 @@ theorem completed_against_final_partial (env : Env) (wf : WF env) (hpm : env.pre
       · exact Or.inl ⟨Nat.succ_lt_succ hlt, hr⟩
       · exact Or.inr ⟨by omega, hr⟩
 
+/-- Delayed handlers are always woken (formerly false of the code: C03-F7, repaired by 7224f57). Whatever
+    the patch of the cycle carries — also content that changes nothing on the server (`constPatch`) — a
+    pass that leaves the cycle open leaves an event pending: the echo of a PATCH that changed the object,
+    or the touch after the sleep. -/
+theorem open_pass_leaves_event (env : Env) (s : State E) (hp : s.pending = true) (hg : s.gone = false)
+    (ha : adjusting env s = false) (hpm : env.prematch = true) (hh : isHandler s = true)
+    (hc : (pass env s).closed = false) :
+    (loopStep env s).pending = true ∧ s.writes < (loopStep env s).writes := by
+  rcases turn_cases env s hp hg with ⟨h1, _⟩ | ⟨h1, _⟩ | ⟨_, h1, _⟩ | ⟨_, _, _, _, _, _⟩ | ⟨_, _, _, _, h⟩
+  · unfold adjusting at ha; simp [h1] at ha
+  · unfold adjusting at ha; simp [h1] at ha
+  · rw [hpm] at h1; cases h1
+  · obtain ⟨now', w, hx⟩ := open_next env s hp hg ha hpm hh hc
+    -- the release turn is excluded by `open_next`'s shape: it never keeps `blocked`
+    rcases turn_cases env s hp hg with ⟨h1, _⟩ | ⟨h1, _⟩ | ⟨_, h1, _⟩ | ⟨_, _, _, hbl, _, h⟩ | ⟨_, _, _, _, h⟩
+    · unfold adjusting at ha; simp [h1] at ha
+    · unfold adjusting at ha; simp [h1] at ha
+    · rw [hpm] at h1; cases h1
+    · rw [hx] at h
+      have := congrArg State.blocked h
+      simp [nextState, releaseTurn, hbl] at this
+    · rw [h]
+      rcases handleTurn_cases env s with ⟨_, h'⟩ | ⟨d, _, _, h'⟩ | ⟨_, hm, h'⟩
+      · rw [h']; exact ⟨rfl, by simp [nextState]⟩
+      · rw [h']; exact ⟨rfl, by simp [nextState]; omega⟩
+      · obtain ⟨_, _, hy⟩ := open_handle_pending env s hh hc
+        rw [h'] at hy
+        have := congrArg State.pending hy
+        simp [nextState] at this
+  · rw [h]
+    rcases handleTurn_cases env s with ⟨_, h'⟩ | ⟨d, _, _, h'⟩ | ⟨_, hm, h'⟩
+    · rw [h']; exact ⟨rfl, by simp [nextState]⟩
+    · rw [h']; exact ⟨rfl, by simp [nextState]; omega⟩
+    · obtain ⟨_, _, hy⟩ := open_handle_pending env s hh hc
+      rw [h'] at hy
+      have := congrArg State.pending hy
+      simp [nextState] at this
+
 /-- After the last change, a handler that reached a final outcome in one turn of the loop is not
     invoked in any later turn of the same handling cycle (C02's once-per-cycle, along the closed loop). -/
 theorem invoked_once_after_last_change (env : Env) (wf : WF env) (hpm : env.prematch = true)
@@ -348,7 +388,7 @@ theorem accumulated_change (env : Env) (s : State E) (edits : List E) (t : Tick)
     is consumed, nothing is written — neither records nor last-handled state are touched. -/
 theorem blind_quiescent (env : Env) (hpm : env.prematch = false) (s : State E) (hp : s.pending = true)
     (hg : s.gone = false) (ha : adjusting env s = false) :
-    (loopStep env s).pending = false ∧ (loopStep env s).writes = s.writes ∧
+    (loopStep env s).pending = false ∧ (loopStep env s).writes = s.writes + cp env ∧
     (loopStep env s).base = s.base ∧ (loopStep env s).P = s.P := by
   rcases turn_cases env s hp hg with ⟨h1, _⟩ | ⟨h1, _⟩ | ⟨_, _, h⟩ | ⟨_, h1, _⟩ | ⟨_, h1, _⟩
   · unfold adjusting at ha; simp [h1] at ha
@@ -440,7 +480,7 @@ def retryingRec : Rec :=
 def envW (prematch : Bool) : Env :=
   { owned := ["c0", "u0"], subs := [], sel := fun c => if c.reason = .create then ["c0"] else [],
     limits := fun _ => ⟨none, none⟩, lifecycle := .asap, exec := fun _ _ => okOutcome,
-    prematch := prematch, changeReq := false, foreignFins := false, lat := 1, cap := 38400 }
+    prematch := prematch, changeReq := false, foreignFins := false, constPatch := false, lat := 1, cap := 38400 }
 
 def stateW (base : Option Nat) (ess : Nat) : State Nat :=
   { P := fun i => if i = "u0" then some retryingRec else none, base := base, ess := ess,
@@ -506,7 +546,7 @@ def envA : Env :=
   { owned := ["u1", "u2"], subs := [], sel := fun c => if c.reason = .update then ["u1", "u2"] else [],
     limits := fun _ => ⟨none, none⟩, lifecycle := .allAtOnce,
     exec := fun i n => if i = "u2" ∧ n = 0 then tempOutcome 64 else okOutcome,
-    prematch := true, changeReq := false, foreignFins := false, lat := 1, cap := 38400 }
+    prematch := true, changeReq := false, foreignFins := false, constPatch := false, lat := 1, cap := 38400 }
 
 def stateA : State Nat :=
   { P := fun _ => none, base := some 0, ess := 1, marked := false, blocked := false, gone := false,
@@ -541,7 +581,7 @@ def envD (foreign : Bool) : Env :=
   { owned := ["d0"], subs := [], sel := fun c => if c.reason = .delete then ["d0"] else [],
     limits := fun _ => ⟨none, none⟩, lifecycle := .asap,
     exec := fun _ n => if n = 0 then tempOutcome 64 else okOutcome,
-    prematch := true, changeReq := true, foreignFins := foreign, lat := 1, cap := 38400 }
+    prematch := true, changeReq := true, foreignFins := foreign, constPatch := false, lat := 1, cap := 38400 }
 
 def stateD : State Nat :=
   { P := fun _ => none, base := some 0, ess := 0, marked := true, blocked := true, gone := false,
@@ -582,6 +622,12 @@ example : bound (envD false) stateD = 3 ∧ (iter (envD false) 3 stateD).pending
     (iter (envD true) 4 stateD).pending = false ∧ (iter (envD true) 4 stateD).gone = false ∧
     (iter (envD true) 4 stateD).blocked = false := by
   refine ⟨by decide, by decide, by decide, by decide, by decide, by decide, by decide⟩
+
+-- `constPatch` (an on.event handler returning a constant): the retry is still woken, the deletion still completes;
+-- only the request count differs (the no-op patch before each touch and in the last FREE/no-op turn)
+example : (iter { envD false with constPatch := true } 3 stateD).gone = true ∧
+    (iter { envD false with constPatch := true } 3 stateD).writes = (iter (envD false) 3 stateD).writes + 1 := by
+  refine ⟨by decide, by decide⟩
 
 -- the finalizer-adding turn: one extra turn, no handler runs in it
 example : adjusting (envD false) stateN = true ∧ (pass (envD false) stateN).invoked = [] ∧
